@@ -300,6 +300,39 @@ def order(ctx, fb, fns):
         if lm and so and la:
             # replace last -> sort -> read K-th: sort dominates the read and is dominated by the write
             okc = all(cf.dominates(m.bb, s.bb) for m in lm for s in so) and all(any(cf.dominates(s.bb, l.bb) for s in so) for l in la)
+    # "ties and NaNs handled by total order": the decision to replace the K-th entry is a total_cmp result, not a partial
+    # float comparison (`>` is false for NaN and for 0.0 vs -0.0); and chunks are skipped only when *every* lane is `<` the
+    # K-th value (a superset test: `any(x > kth)` would also skip NaN lanes and equal-but-differently-ordered values)
+    tot, part = 0, []
+    for cf in up:
+        if cf is None or not cf.has_mir():
+            continue
+        lm = [c for c in cf.calls() if (c.callee or '').endswith('::last_mut')]
+        for m in lm:
+            for g in cf.guards(m.bb):
+                c, t = unwrap_not(g.cond(), g.truth())
+                if c[0] == 'cmp' and any('f32' in cf.local_ty(op_local(x) or 0) or 'f64' in cf.local_ty(op_local(x) or 0) for x in (c[2], c[3]) if op_local(x) is not None):
+                    part.append('%s at %s' % (c[1], cf.loc()))
+                if c[0] == 'call' and re.search(r'Ordering::is_(gt|lt|ge|le)$', c[1].callee or '') and any(o[0] == 'call' and re.search(r'::total_cmp$', o[1] or '') for o in cf.origins(c[1].args[0])):
+                    tot += 1
+                if c[0] == 'disc' or c[0] == 'cmp':
+                    og = cf.origins(c[1] if c[0] == 'disc' and not isinstance(c[1], list) else (['c', c[1]] if c[0] == 'disc' else c[2]))
+                    if any(o[0] == 'call' and re.search(r'::total_cmp$', o[1] or '') for o in og):
+                        tot += 1
+    ctx.inst(R, 'topk:update-by-total-order', tot >= 1 and not part, 'the K-th entry is replaced only under a total_cmp(..) test' if tot >= 1 and not part else
+             'the K-th entry is replaced under a partial float comparison (%s): NaNs never enter the list / a leading -NaN is never displaced / 0.0 does not displace -0.0, contrary to the total order' % ('; '.join(part) or 'no total_cmp guard found'), f.loc())
+    skips = [c for c in f.calls() if re.search(r'MaskOps<.*>>?::(any|all|all_false)$|::(any|all|all_false)$', c.callee or '') and f.in_loop(c.bb) and 'Mask' in f.local_ty(op_local(c.args[1]) or 0)] if False else \
+        [c for c in f.calls() if re.search(r'::(any|all|all_false)$', c.callee or '') and f.in_loop(c.bb) and len(c.args) == 2 and any(o[0] == 'call' and re.search(r'::(gt|ge|lt|le)$', o[1] or '') for o in f.origins(c.args[1]))]
+    oks = bool(skips)
+    desc = []
+    for c in skips:
+        kind = (c.callee or '').split('::')[-1]
+        cmpk = sorted({(o[1] or '').split('::')[-1] for o in f.origins(c.args[1]) if o[0] == 'call' and re.search(r'::(gt|ge|lt|le)$', o[1] or '')})
+        desc.append('%s(%s)' % (kind, '/'.join(cmpk)))
+        if not (kind == 'all' and cmpk in (['lt'], ['le'])):
+            oks = False
+    ctx.inst(R, 'topk:chunk-skip-is-superset', oks, 'a chunk is skipped only when all lanes compare `<` the K-th value (%s): NaN and equal lanes are examined individually' % ', '.join(desc) if oks else
+             'the vectorized pre-check is %s: lanes for which the partial comparison is false (NaN, zeros of the other sign) are skipped although the total order may rank them above the K-th value' % (', '.join(desc) or 'not found'), skips[0].loc() if skips else f.loc())
     ctx.inst(R, 'topk:update-resorts', okc, 'the update closure replaces the last entry, re-sorts, then reads the new K-th score', f.loc())
 
 
